@@ -1507,3 +1507,31 @@ package http2
 //@ loop 4: invariant slots: openStreams <= sc.st.maxStreams
 //@ loop 4: invariant ring: ringOK(closedRing, closedOldest)
 //@ loop 4: invariant cur: strm != nil && strm.ctx != nil && strm.recvBody >= 0 && !strm.abandoned && (strm.handlerRunning ==> strm.responded)
+
+
+// ---- client: the server's SETTINGS ----
+
+//@ func (*Conn).applyInitialWindow
+//@ props C07 C18
+//@ requires recv: c != nil
+//@ opt noframe=true
+//@ opt noovf=true
+//@ modifies c.streamWindow, family(pendingBody)
+//@ # RFC 7540 6.9.2: every stream with a body in flight gets the difference between the new and the old initial window,
+//@ # nothing else, so its window may well go negative; it is never clamped
+//@ loop 0: step exact: pb.window == iter(pb.window) + delta
+//@ ensures win: c.streamWindow == size
+
+//@ func (*Conn).handleSettings
+//@ props C07 C18
+//@ requires args: c != nil && st != nil
+//@ opt noframe=true
+//@ modifies c.serverS, capacity(c.serverS.rawSettings), c.maxStreams, c.maxFrameSize, c.encTableSize, c.streamWindow, family(pendingBody)
+//@ # the limits the client works with from now on are the ones in the frame just received
+//@ ensures frame: c.maxFrameSize == old(st.frameSize)
+//@ ensures streams: c.maxStreams == old(st.maxStreams)
+//@ ensures table: c.encTableSize == old(st.tableSize)
+//@ ensures window: old(st.hasWindowSize) ==> c.streamWindow == old(st.windowSize) % 2147483648 || c.streamWindow == old(st.windowSize) - 4294967296
+//@ # and it is acknowledged with exactly one SETTINGS frame carrying ACK
+//@ assert@call:(*Conn).writeOut#1 ack: arg1 != nil && typeis(arg1.fr, *Settings) && as(arg1.fr, *Settings).ack
+//@ ensures once: called((*Conn).writeOut) == 1
